@@ -162,14 +162,24 @@ def lean_check(pid, quick=True):
                     failed = list(mods)
         st.failed_modules = failed
         st.build_ok = st.driver_ok and not failed and bool(mods)
-        # forbidden tokens in every file the property modules (transitively) use: scan all of Model/Proofs/Properties
-        for sub in ("Model", "Proofs", "Properties"):
-            for root, _, fs in os.walk(os.path.join(LEAN, sub)):
-                for f in fs:
-                    if f.endswith(".lean"):
-                        src = _strip_comments(open(os.path.join(root, f)).read())
-                        for m in FORBIDDEN.finditer(src):
-                            st.forbidden_hits.append(f"{os.path.relpath(os.path.join(root, f), LEAN)}: {m.group(0).strip()}")
+        # forbidden tokens in every project file in the import closure of the property modules
+        seen = set()
+        todo = [f"Properties.{f}" for f in files] + ["Driver"]
+        while todo:
+            m = todo.pop()
+            if m in seen:
+                continue
+            seen.add(m)
+            path = os.path.join(LEAN, *m.split(".")) + ".lean"
+            if not os.path.exists(path):
+                continue
+            raw = open(path).read()
+            for im in re.findall(r"^import\s+(\S+)", raw, flags=re.M):
+                if im.split(".")[0] in ("Model", "Proofs", "Properties"):
+                    todo.append(im)
+            src = _strip_comments(raw)
+            for mm in FORBIDDEN.finditer(src):
+                st.forbidden_hits.append(f"{os.path.relpath(path, LEAN)}: {mm.group(0).strip()}")
         # axiom audit
         names = {}
         for f in files:
